@@ -219,12 +219,16 @@ def spectrum_data(rng, n, d, centre):
     return X + (rng.normal(size=d) * 3 if centre else 0)      # an offset would swamp the prescribed spectrum of an uncentred model
 
 
+CUT = [0.0]
+
+
 def reference(X, centre):
     n = X.shape[0]
     m = X.mean(0) if centre else np.zeros(X.shape[1])
     u, s, vt = np.linalg.svd(X - m, full_matrices=False)
     lam = s ** 2 / (n - 1)
     keep = lam > lam.max() * 1e-10
+    CUT[0] = float(np.sqrt(max(0.0, (n - 1) * lam[~keep].sum())))     # what the documented relative cut-off discards (data units)
     return m, lam[keep], vt[keep]
 
 
@@ -333,7 +337,7 @@ def w_model(ctx, rng, i):
         # every training sample is reconstructed exactly with all components
         for row in X[: min(n, 5)]:
             rec = PCAVectorModel.reconstruct(model, row)
-            if _amax(rec - row) > 1e-8 * scale:
+            if _amax(rec - row) > 1e-8 * scale + 2 * CUT[0]:
                 ctx.fail("training_sample_not_reconstructed_exactly", cls=cls, mech=rel, err=float(np.abs(rec - row).max()))
                 break
     if backing != "vector":
@@ -343,7 +347,7 @@ def w_model(ctx, rng, i):
             ctx.fail("model_mean_is_not_the_sample_mean", cls=cls, mech="object_level:" + backing)
         for smp, row in list(zip(samples, X))[:3]:
             rec = np.asarray(model.reconstruct(smp).as_vector(), dtype=float)
-            if model.n_components == len(lam) and _amax(rec - row) > 1e-8 * scale:
+            if model.n_components == len(lam) and _amax(rec - row) > 1e-8 * scale + 2 * CUT[0]:
                 ctx.fail("training_sample_not_reconstructed_exactly", cls=cls, mech="object_level:" + backing, err=_amax(rec - row))
                 break
     # ---- identities through the public API (taps judge them)
